@@ -138,12 +138,54 @@ def _alpha_depth_rule(ctx, blp):
         ctx.bad(R, "parse_header|not-evaluable", "%s:%d" % (ph.file, let.get("ln") or 0), "alpha_bits expression not evaluable: %s" % e, "shape changed")
 
 
+def _raw3_pack_rule(ctx, blp):
+    """raw BGRA (RAW3) is pixel-exact: the packer lays the four channels of *every* pixel into the 32-bit word, whatever their
+    values — no pixel is special-cased (a fully transparent pixel still carries its colour)"""
+    R = ctx.rule("C16.raw3-packs-every-pixel-verbatim", "image_to_raw3's per-pixel loop has no value-dependent control flow and pushes a<<24 | r<<16 | g<<8 | b for 8 sample pixels (including alpha 0 with colour)", floor=1)
+    from .c10 import _ival, _NoEval
+    f = next((x for x in blp.fn_list if x.hir and x.kind != "Closure" and norm(x.path).endswith("convert::raw3::image_to_raw3")), None)
+    if f is None:
+        ctx.bad(R, "image_to_raw3|missing", "-", "function not found", "anchor gone")
+        return
+    ctx.saw_fn(f)
+    lp = next((l for l in hirq.find(f.hir["body"], "for") if "pixels()" in hirq.render(l["iter"])), None)
+    if lp is None:
+        ctx.bad(R, "image_to_raw3|shape", f.where, "no `for pixel in ..pixels()` loop found", "shape changed")
+        return
+    ctl = [x for x in hirq.walk(lp["body"]) if x.get("k") in ("if", "match", "continue", "break", "ret") and not x.get("x")]
+    if ctl:
+        ctx.bad(R, "image_to_raw3|value-dependent", "%s:%d" % (f.file, ctl[0].get("ln") or lp.get("ln") or 0), "the per-pixel loop contains `%s`" % hirq.render(ctl[0])[:50],
+                "pixels the condition selects are not stored as they are: the decoded image differs from the source in those pixels (e.g. fully transparent pixels lose their colour)")
+        return
+    push = next((x for x in hirq.walk(lp["body"]) if x.get("k") == "mcall" and x["m"] == "push" and x.get("args")), None)
+    pv = (hirq.pat_binds(lp["pat"]) or [None])[0]
+    if push is None or pv is None:
+        ctx.bad(R, "image_to_raw3|shape", f.where, "no push of the packed word found", "shape changed")
+        return
+    lets = {l["pat"]["name"]: l["init"] for l in hirq.find(lp["body"], "let") if l["pat"].get("k") == "bind" and l.get("init") is not None}
+    try:
+        bad = None
+        for (r, g, b, a) in ((0, 0, 0, 0), (255, 1, 2, 0), (1, 2, 3, 4), (255, 255, 255, 255), (16, 32, 64, 128), (0, 0, 0, 255), (200, 0, 0, 0), (7, 77, 177, 1)):
+            leaf = lambda r_, ch=(r, g, b, a): ch[int(r_[-2])] if re.search(r"\[\d\]$", r_) else None
+            got = _ival(push["args"][0], {"__leaf__": leaf, "__ty__": (lambda t_: blp.ty(t_))}, lets) & 0xFFFFFFFF
+            want = (a << 24) | (r << 16) | (g << 8) | b
+            if got != want and bad is None:
+                bad = ((r, g, b, a), got, want)
+        if bad:
+            ctx.bad(R, "image_to_raw3|packing", "%s:%d" % (f.file, push.get("ln") or 0), "pixel %s is packed as 0x%08X, BGRA order gives 0x%08X" % bad, "the decoded pixel differs from the source pixel")
+        else:
+            ctx.ok(R, {"packed": hirq.render(push["args"][0])[:60], "samples": 8})
+    except _NoEval as e:
+        ctx.bad(R, "image_to_raw3|not-evaluable", f.where, "packed word not evaluable: %s" % e, "shape changed")
+
+
 def run(ctx):
     prog = ctx.prog
     blp = prog.crate("wow_blp")
     R_hdr = ctx.rule("C16.header-codec-agreement", "for BLP0/1/2 the header bytes encode_header emits are what parse_header consumes (widths, order, named fields)", floor=3)
     R_disp = ctx.rule("C16.content-dispatch-covers-variants", "every BlpContent variant is handled by the encoder and the parser dispatch", floor=2)
     _alpha_depth_rule(ctx, blp)
+    _raw3_pack_rule(ctx, blp)
 
     enc = next((f for f in blp.fn_list if norm(f.path) == "wow_blp::encode::encode_header"), None)
     par = next((f for f in blp.fn_list if norm(f.path) == "wow_blp::parser::header::parse_header"), None)
